@@ -96,3 +96,14 @@ package utils
 //@   assert after generator#1: prev == "" && name == "generator" && generator == content
 //@   call append#2 assert[author-as-found] name == "author" && len(arg1) == 1 && arg1[0] == content
 //@   ensures[fields] result.Title == title && result.Description == description && result.Generator == generator && result.Keywords == keywords && result.Authors == authors && result.Attachments == attachments
+
+//@ func MinF
+//@   props C18
+//@   nopanic
+//@   pure
+//@   ensures result <= x && result <= y && (result == x || result == y)
+//@ func MaxF
+//@   props C18
+//@   nopanic
+//@   pure
+//@   ensures result >= x && result >= y && (result == x || result == y)
